@@ -191,6 +191,35 @@ class Interp:
                 pass
         return S(name)
 
+    def class_constant(self, base, name, fr):
+        """self.NAME / Class.NAME where NAME = <literal> is assigned in the class body (never re-assigned on instances)"""
+        cname = None
+        if base == fr.env.get('self') and fr.cls:
+            cname = fr.cls
+        elif base[0] == 'obj':
+            cname = base[1]
+        elif base[0] == 'sym' and base[1] in self.repo.classes and base[1] not in fr.env:
+            cname = base[1]
+        if cname is None or self._is_enum(cname):
+            return None
+        key = ('cc', cname, name)
+        if key in self.modconst:
+            return self.modconst[key]
+        val = None
+        for rel, tree in self.repo.trees.items():
+            for c in tree.body:
+                if isinstance(c, ast.ClassDef) and c.name == cname:
+                    found = [s_.value for s_ in c.body if isinstance(s_, ast.Assign) and len(s_.targets) == 1 and isinstance(s_.targets[0], ast.Name) and s_.targets[0].id == name]
+                    stored = any(isinstance(x, ast.Attribute) and x.attr == name and isinstance(x.ctx, ast.Store) for m in c.body if isinstance(m, ast.FunctionDef) for x in ast.walk(m))
+                    if len(found) == 1 and not stored:
+                        try:
+                            dummy = type(fr.func)(fr.func.module, cname, ast.parse('def _():\n pass').body[0], rel)
+                            val = self.ex(found[0], Frame(dummy, {}))
+                        except Unknown:
+                            val = None
+        self.modconst[key] = val
+        return val
+
     def module_constant(self, name, fr):
         """Top-level `NAME = <literal built from constants / enum members>` of a repository module (own module first)."""
         if name in self.modconst:
@@ -287,7 +316,13 @@ class Interp:
         if isinstance(n, ast.Name):
             return self.lookup(n.id, fr)
         if isinstance(n, ast.Attribute):
-            return self.load(A(self.ex(n.value, fr), n.attr))
+            base = self.ex(n.value, fr)
+            t = self.load(A(base, n.attr))
+            if t == A(base, n.attr):
+                cc = self.class_constant(base, n.attr, fr)
+                if cc is not None:
+                    return cc
+            return t
         if isinstance(n, ast.Subscript):
             b = self.ex(n.value, fr)
             if isinstance(n.slice, ast.Slice):
@@ -728,6 +763,9 @@ class Interp:
                 rest = stmts[i + 1:]
                 if rest and ((c1 and not c2) or (c2 and not c1)):
                     g = NOT(e.cond) if c1 else e.cond
+                    if (c1 or c2) == 'break':
+                        # the rest runs only while the loop has not been left: a PREFIX of the iteration domain, not a filter
+                        g = CALL(S('__until_break__'), [g])
                     fr.guards.append(g)
                     body = self.sub(rest, fr)
                     fr.guards.pop()
